@@ -21,6 +21,11 @@ func (n *RaftNode) VerifForceSnapshot() error { return n.raft.Snapshot().Error()
 // VerifLeadershipTransfer asks the leader to hand leadership over.
 func (n *RaftNode) VerifLeadershipTransfer() error { return n.leaveLeadership() }
 
+// VerifLeadershipTransferTo asks the leader to hand leadership over to the named server.
+func (n *RaftNode) VerifLeadershipTransferTo(id, raftAddr string) error {
+	return n.raft.LeadershipTransferToServer(raft.ServerID(id), raft.ServerAddress(raftAddr)).Error()
+}
+
 // VerifFSMState returns the in-memory fsm state (last applied raft index, last balloon version).
 func (n *RaftNode) VerifFSMState() (index, balloonVersion uint64) {
 	n.applyMu.RLock()
